@@ -1,6 +1,11 @@
 THEOREMS = [
-    "JanetModel.Props.C02.emit_sss_correct_partial",
-    "JanetModel.Props.C02.emit_ssi_correct_partial",
-    "JanetModel.Props.C02.copy_correct_partial",
+    "JanetModel.Props.C02.emit_sss_correct",
+    "JanetModel.Props.C02.emit_ss_correct",
+    "JanetModel.Props.C02.emit_s_correct",
+    "JanetModel.Props.C02.emit_ssi_correct",
+    "JanetModel.Props.C02.emit_ssu_correct",
+    "JanetModel.Props.C02.emit_si_correct",
+    "JanetModel.Props.C02.copy_correct",
     "JanetModel.Props.C02.regtemp_disjoint",
+    "JanetModel.Props.C02.regtemp_model_eq",
 ]
